@@ -20,6 +20,7 @@ import (
 
 	"github.com/tdewolff/minify/v2"
 	mhtml "github.com/tdewolff/minify/v2/html"
+	mjs "github.com/tdewolff/minify/v2/js"
 	"github.com/tdewolff/parse/v2"
 	"github.com/tdewolff/parse/v2/buffer"
 	phtml "github.com/tdewolff/parse/v2/html"
@@ -1106,6 +1107,20 @@ func c03ReplayKnown(c *Ctx) error {
 				c.R.Add(h.Finding{Stage: "known", Kind: "fail", What: "known finding " + k.ID + " fails with a different signature: " + sig, Input: h.Q(in), Hex: h.Hex(in), Impl: res})
 			}
 			c.R.AddKnown(k.ID, still, k.What, h.Q(out)+" — "+res)
+		case "domjs": // html with the REAL js minifier registered (the dom stage itself runs without sub-minifiers)
+			m := minify.New()
+			m.AddFunc("application/javascript", mjs.Minify)
+			var w bytes.Buffer
+			var err error
+			crash := h.Safely(20e9, func() {
+				err = c03OptsOf(0).minifier().Minify(m, &w, bytes.NewReader(parse.Copy(in)), nil)
+			})
+			if crash != "" || err != nil {
+				c.R.AddKnown(k.ID, true, k.What, "crash/err: "+crash)
+				continue
+			}
+			res := c03oCompare(in, w.Bytes(), c03OptsOf(0).oracle())
+			c.R.AddKnown(k.ID, res != "", k.What, h.Q(w.Bytes())+" — "+res)
 		case "refs":
 			mode := 0
 			if v, ok := k.Replay["mode"].(float64); ok {
@@ -1215,4 +1230,103 @@ func c03ContextDocs(c *Ctx) (names []string, docs [][]byte) {
 		}
 	}
 	return
+}
+
+// ---------- rawlex: html.go's rawTextEndsAtEnd (through the real Minify) vs the model of the lexer's raw text scan ----------
+
+// c03RawAccepted: does the real html minifier use the sub-minifier result b as content of <name>?
+func c03RawAccepted(name string, b []byte) (accepted bool, crash string) {
+	m := minify.New()
+	m.AddFuncRegexp(regexp.MustCompile(`.*`), minify.MinifierFunc(func(_ *minify.M, w io.Writer, r io.Reader, _ map[string]string) error {
+		io.ReadAll(r)
+		_, err := w.Write(b)
+		return err
+	}))
+	in := []byte("<" + name + ">@</" + name + ">")
+	var w bytes.Buffer
+	crash = h.Safely(5e9, func() {
+		if err := c03OptsOf(0).minifier().Minify(m, &w, bytes.NewReader(parse.Copy(in)), nil); err != nil {
+			panic(err)
+		}
+	})
+	if crash != "" {
+		return
+	}
+	if bytes.Equal(w.Bytes(), in) {
+		return false, ""
+	}
+	if bytes.Equal(w.Bytes(), []byte("<"+name+">"+string(b)+"</"+name+">")) {
+		return true, ""
+	}
+	return false, "unexpected output " + h.Q(w.Bytes())
+}
+
+func c03StageRawLex(c *Ctx) error {
+	st := c.R.StartStage("rawlex", "sub-minifier results b (pieces: < / ! - > script SCRIPT scrip style STYLE iframe x 1 space newline <!-- --> </script <script, up to 7 pieces, exhaustive up to 3) offered for the content of <script>, <style>, <iframe> through the REAL html.Minify: written or rejected (rawTextEndsAtEnd on the real lexer) vs model rawTextEndsAtEnd (model of shiftRawText); for style/iframe additionally: accepted implies the standard's RAWTEXT tokenisation reads b back (Spec.HtmlRawText); non-trivial = rejected")
+	r := h.NewRNG(c.Seed ^ 0x5a17)
+	pieces := []string{"<", "/", "!", "-", ">", "script", "SCRIPT", "scrip", "style", "STYLE", "iframe", "x", "1", " ", "\n", "<!--", "-->", "</script", "<script", "</", "--"}
+	names := []string{"script", "style", "iframe"}
+	var bs [][]byte
+	var rec func(cur []byte, d int)
+	rec = func(cur []byte, d int) {
+		bs = append(bs, parse.Copy(cur))
+		if d == 0 {
+			return
+		}
+		for _, p := range pieces {
+			rec(append(parse.Copy(cur), p...), d-1)
+		}
+	}
+	rec(nil, c.N(2, 3))
+	n := c.N(6000, 200000)
+	for i := 0; i < n; i++ {
+		var b []byte
+		for k := 1 + r.Intn(7); k > 0; k-- {
+			b = append(b, r.Pick(pieces)...)
+		}
+		bs = append(bs, b)
+	}
+	type item struct {
+		name string
+		b    []byte
+		acc  bool
+	}
+	var items []item
+	var lines []string
+	for _, b := range bs {
+		for _, nm := range names {
+			acc, crash := c03RawAccepted(nm, b)
+			if crash != "" {
+				c.R.Add(h.Finding{Stage: st.Name, Kind: "crash", What: crash, Input: nm + " " + h.Q(b), Hex: h.Hex(b)})
+				continue
+			}
+			items = append(items, item{nm, b, acc})
+			lines = append(lines, "model.c03.rawok "+h.Hex([]byte(nm))+" "+h.Hex(b))
+		}
+	}
+	rep, err := h.Eval(lines)
+	if err != nil {
+		return err
+	}
+	for i, it := range items {
+		st.Count(it.name+" "+string(it.b), !it.acc)
+		got, ok, msg := h.DecodeReply(rep[i])
+		if !ok || len(got) != 2 {
+			c.R.Add(h.Finding{Stage: st.Name, Kind: "diff", What: "model error: " + msg, Input: it.name + " " + h.Q(it.b), Hex: h.Hex(it.b)})
+			continue
+		}
+		if (got[0] == '1') != it.acc {
+			c.R.Add(h.Finding{Stage: st.Name, Kind: "diff", What: "model.c03.rawok", Input: it.name + " " + h.Q(it.b), Hex: h.Hex(it.b), Impl: fmt.Sprint(it.acc), Model: string(got[:1])})
+			continue
+		}
+		if it.name != "script" {
+			if it.acc && got[1] != '1' {
+				c.R.Add(h.Finding{Stage: st.Name, Kind: "fail", What: "accepted raw text is not read back by the standard's RAWTEXT tokenisation", Input: it.name + " " + h.Q(it.b), Hex: h.Hex(it.b)})
+			} else if !it.acc && got[1] == '1' {
+				st.Tag("rejected-but-standard-would-read-it-back")
+			}
+		}
+	}
+	st.End()
+	return nil
 }
